@@ -60,6 +60,9 @@ def cases(tier, seed):
                 for scr in (False, True):
                     for seedkind in ("memory",) if tier == "quick" else ("memory", "reloaded"):
                         out.append(dict(fam="resume", N=N, n1=n1, k=k, screening=scr, seed=seedkind))
+    # the intermediate solution is looked at (post-processing, plots) before it seeds the continuation: observing does not change it
+    for n1, scr, seedkind in itertools.product((3, 5), (False, True), ("memory", "reloaded")):
+        out.append(dict(fam="resume", N=8, n1=n1, k=2, screening=scr, seed=seedkind, looked_at=True))
     return out
 
 
@@ -264,6 +267,30 @@ def run_resume(case):
     if case["seed"] == "reloaded":
         s1 = tdgl.Solution.from_hdf5("first.h5")
     seed_before = {d: np.array(getattr(s1.tdgl_data, d)) for d in DSETS}
+    if case.get("looked_at"):
+        import matplotlib
+
+        matplotlib.use("Agg")
+        import matplotlib.pyplot as plt
+
+        pts = np.array([[0.1, 0.2], [0.5, -0.3], [-0.4, 0.1]])
+        looks = [
+            lambda: s1.current_density, lambda: s1.vorticity, lambda: s1.times, lambda: s1.dynamics.dt, lambda: s1.boundary_phases(),
+            lambda: s1.field_at_position(pts, zs=0.8), lambda: s1.vector_potential_at_position(pts, zs=0.8), lambda: s1.interp_current_density(pts),
+            lambda: s1.interp_order_parameter(pts), lambda: s1.grid_current_density(grid_shape=(9, 7)),
+            lambda: s1.plot_scalar_potential(), lambda: s1.plot_order_parameter(), lambda: s1.plot_currents(), lambda: s1.plot_vorticity(),
+            lambda: s1.plot_field_at_positions(pts, zs=0.8), lambda: s1.dynamics.plot(), lambda: s1.dynamics.plot_dt(),
+        ]
+        for look in looks:
+            try:
+                look()
+                res.count("looks_at_the_seed")
+            except Exception:  # noqa: BLE001 - a post-processing routine that does not run in this environment is not the subject here
+                res.count("looks_that_raised")
+            plt.close("all")
+        changed = [d for d in DSETS if not np.array_equal(seed_before[d], getattr(s1.tdgl_data, d))]
+        if changed:
+            res.violate("solution-changed-by-looking-at-it", dataset=changed[0], screening=scr, detail={"case": case, "changed": changed})
     # the same seed object is used twice (with another recording configuration in between): using a saved state must not change it
     tdgl.solve(dev, opts(N - n1, (k % 3) + 1, "other.h5"), seed_solution=s1, **kw)
     changed = [d for d in DSETS if not np.array_equal(seed_before[d], getattr(s1.tdgl_data, d))]
